@@ -134,7 +134,7 @@ def scan(source: str, callback: callable):
                 state.expression += 1
             elif scanner.eat(Chars.RightRound):
                 state.expression -= 1
-            elif not literal(scanner):
+            elif not literal(scanner) and not scanner.eof():
                 scanner.pos += 1
 
             state.end = scanner.pos
@@ -185,7 +185,8 @@ def literal(scanner: Scanner):
 
             # Skip escape character, if any
             scanner.eat(Chars.Backslash)
-            scanner.pos += 1
+            if not scanner.eof():
+                scanner.pos += 1
 
         # Do not throw if string is incomplete
         return True
